@@ -903,8 +903,8 @@ Lemma wfcond_nexp e : wfcond1 e -> wfcond (nexp Parens.Std e).
 Proof. intros [W F]. split; [apply wfe_nexp; exact W|rewrite (isfield_nexp _ _ W); exact F]. Qed.
 Lemma wfcond_ncond e : wfcond1 e -> wfcond (ncond e).
 Proof.
-  intros [W F]. destruct e; try (apply wfcond_nexp; split; assumption).
-  unfold ncond. destruct W as [W Fx]. split; [apply wfe_nexp; exact W|rewrite (isfield_nexp _ _ W); exact Fx].
+  induction e; intros [W F]; try (apply wfcond_nexp; split; assumption).
+  cbn [ncond]. destruct W as [W Fx]. apply IHe. split; assumption.
 Qed.
 Theorem wfb_nblk : (forall s, wfs1 s -> wfs (nstmt s)) /\ (forall b, wfb1 b -> wfb (nblk b)).
 Proof.
